@@ -527,6 +527,10 @@ long long c_voronoi(long long nrows, long long ncols,
         /* Get cell number for coordinates */
         idxcell = idxcells_area[i];
 
+        /* Cells outside of the grid have no coordinates */
+        if(idxcell<0 || idxcell>=nrows*ncols)
+            return GRID_ERROR + __LINE__;
+
         ierr = getcoord(nrows, ncols, xll, yll, csz, idxcell, xy);
         if(ierr>0)
             return GRID_ERROR + __LINE__;
